@@ -49,7 +49,7 @@ func c19(c *core.Ctx, r *core.Report) {
 			}
 		}
 	}
-	targets := core.InlinedInstrsFrom(c, fn, region, 3, func(ins ssa.Instruction) bool {
+	targets := core.InlinedInstrsFrom(c, fn, region, c.Depth(3), func(ins ssa.Instruction) bool {
 		mu, ok := ins.(*ssa.MapUpdate)
 		if !ok {
 			return false
